@@ -9,7 +9,7 @@ SPEC = {
     "level": "proof",
     "level_text": "somepath: full (sound and complete on every graph, memo included). deps/revdeps: soundness full "
                   "(everything reported is within the level limit, for every graph), completeness VIOLATED by the code: "
-                  "four machine-checked witnesses (two root causes per query) + C23_deps_not_exact / C23_revdeps_not_complete; "
+                  "three machine-checked witnesses + C23_deps_not_exact / C23_revdeps_not_complete (a fourth root cause, isSameTarget resolving the parent through the graph, was repaired with fix: commit 5bb75ab); "
                   "theorems are about the transcriptions in Model/Query.lean; ShouldInclude filters, subincludes, subrepos, "
                   "`except` and dot output are not modelled",
     "technique": "Lean 4 invariant proofs (weighted-path upper bounds for DFS levels / queue depths, DFS closure for somepath) "
@@ -19,16 +19,16 @@ SPEC = {
         "correspondence harness/cmd/c23 vs Driver/C23.lean: exact printed lines / reported sets / paths on every DAG on <= 4 targets "
         "(thorough: 5) x roots x levels, random graphs with hidden sub-targets, orphan and oddly named targets, provide/require, planted delicate shapes",
         "modelled, not verified: Model/Query.lean transcribes deps, FindRevdeps/findRevdeps/isSameTarget, somePath/SomePath; Go maps as membership lists",
-        "direct oracle: independent Bellman-Ford 0/1 distances and reachability in the harness, with class predicates for the four known root causes",
+        "direct oracle: independent Bellman-Ford 0/1 distances and reachability in the harness, with class predicates for the three known and the one repaired root cause",
         "revdeps with a level limit from a root that has >= 2 hidden children is checked by the oracle only (the real code pushes the children in Go map order)",
     ],
     "assumptions": [
         "no include/exclude label filters (state.ShouldInclude is true), no subincludes/subrepos in the queried graph",
         "every declared dependency and every provided label is a target of the graph (TargetOrDie would exit otherwise)",
-        "a label that does not start with '_' has no parent (LabelsWF; true of BuildLabel.Parent)",
+        
     ],
     "explanation": "C23_deps_sound, C23_revdeps_sound, C23_somepath_sound/complete/call hold for all graphs; "
-                   "C23_witness_* exhibit the four known findings and are replayed on the real code from corpus/C23/known-*.ops.",
+                   "C23_witness_* exhibit the three known findings and are replayed on the real code from corpus/C23/known-*.ops; the repaired one is replayed from corpus/C23/fixed-*.ops and must pass.",
 }
 
 MUTATIONS = """
@@ -47,4 +47,10 @@ directories (extractor -> Props/C23.lean re-elaborated with the regenerated fact
  M7 reverse_deps.go `PushFront` (LIFO)                             -> C23_facts_ok fails; 86 disagreements; NEW class revdeps-missing-other
  M8 somepath.go `return path` (target1 not prepended)              -> C23_facts_ok fails; 2443 disagreements; NEW class somepath-not-a-chain (2292)
  H1 harmless: deps.go locals renamed (dep->dp, l->lab)              -> facts regenerated identically, 0 disagreements, only the four known classes
+Fix phase: revdeps-orphan-subtargets-cost-one repaired in /repo (5bb75ab). Re-introducing it (`git revert -n`) on a scratch clone:
+ class revdeps-orphan-subtargets-cost-one again on corpus/C23/fixed-*.ops and 101 generated inputs; 93 disagreements; C23_facts_ok fails.
+deps-subtarget-to-own-rule-edge was NOT repaired: the small patch (free edge in the printing branch) leaves the class alive at the level
+boundary (466 of 586 inputs still fail) because deps returns at `currentLevel == targetLevel` before looking at dependencies.
+The two first-visit-depth findings were not repaired: a correct level-limited result needs best-depth bookkeeping (re-expansion or a
+0-1 BFS), which changes the structure of both functions and the shape of the printed tree — not a small patch.
 """
